@@ -136,6 +136,70 @@ pub fn blocks(ctx: &Ctx, rep: &mut Report) {
             rep.nontrivial(format!("ber-ln2|{}", k).as_bytes());
         }
     }
+    // CARRY EDGES of the wide products inside ApproxExp: a 64x64-bit product computed from 32-bit
+    // limbs has a middle column z1*y0 + z0*y1 (+ carry of z0*y0) whose low 32 bits may sum to
+    // exactly 2^32 - 1, 2^32 or their neighbours; for the final product (z from ccs, y from x)
+    // and the first one (z from x, y = C[0]) the operand under control is solved for from a
+    // congruence modulo 2^32 (2^-31 per call by chance)
+    {
+        let mut rng = rng_for(ctx.seed, "c09-carry-edges");
+        let two63 = 9223372036854775808.0f64;
+        let inv32 = |a: u32| -> u32 {
+            // inverse of an odd a modulo 2^32 (Newton)
+            let mut x = a;
+            for _ in 0..5 {
+                x = x.wrapping_mul(2u32.wrapping_sub(a.wrapping_mul(x)));
+            }
+            x
+        };
+        let mut made = 0u64;
+        for it in 0..ctx.sz(4000, 200_000) {
+            let final_product = it % 4 != 3;
+            // the fixed operand (y) and the range wanted for the solved one (z)
+            let (x, y): (f64, u64) = if final_product {
+                let x = rng.gen::<f64>() * rs::LN2;
+                (x, rs::approx_exp(x, 1.0))
+            } else {
+                (0.0, rs::C[0])
+            };
+            let (y1, y0) = ((y >> 32) as u32, y as u32);
+            if y0 % 2 == 0 {
+                continue;
+            }
+            // z = z1 2^32 + z0 must be floor(2^63 v) for a double v: 53 significant bits, so with
+            // z1 a 31-bit number z0 is a multiple of 2^10
+            let z0: u32 = rng.gen::<u32>() & !0x3ff;
+            let cin = ((z0 as u64 * y0 as u64) >> 32) as u32;
+            let target: u32 = [0xFFFF_FFFFu32, 0xFFFF_FFFE, 0, 1][(it / 4) % 4];
+            let with_cin = (it / 16) % 2 == 0;
+            let rhs = target.wrapping_sub((z0 as u64 * y1 as u64) as u32).wrapping_sub(if with_cin { cin } else { 0 });
+            let z1 = rhs.wrapping_mul(inv32(y0));
+            let lo = if final_product { (0.70 * 2147483648.0) as u32 } else { 1 << 20 };
+            let hi = if final_product { 1u32 << 31 } else { (rs::LN2 * 2147483648.0) as u32 };
+            if z1 < lo || z1 >= hi {
+                continue;
+            }
+            let z = ((z1 as u64) << 32) | z0 as u64;
+            let v = z as f64 / two63;
+            if (v * two63).floor() as u64 != z {
+                continue;
+            }
+            let (xx, ccs) = if final_product { (x, v) } else { (v, [1.0f64, 0.83, SIGMIN_512 / rs::SIGMA_MAX][it % 3]) };
+            check_approx(xx, ccs, rep);
+            // and BerExp with the bytes at and next to the threshold
+            let zt = rs::ber_threshold(xx, ccs);
+            let top = zt >> 8;
+            for vv in [top, top.wrapping_sub(1), top + 1] {
+                let b = (vv << 8).to_be_bytes();
+                let mut c7 = [0u8; 7];
+                c7.copy_from_slice(&b[..7]);
+                check_ber(xx, ccs, c7, rep);
+            }
+            made += 1;
+        }
+        rep.count("approx_exp_limb_carry_edge_inputs", made);
+        rep.nontrivial(b"carry-edges");
+    }
     check_base(0, rep);
     check_base((1u128 << 72) - 1, rep);
     for k in 0..72 {
@@ -227,6 +291,7 @@ pub fn blocks(ctx: &Ctx, rep: &mut Report) {
         }
     });
     rep.merge(r);
+    rep.require("approx_exp_limb_carry_edge_inputs", 200);
     rep.require("base_threshold_points", 80);
     rep.require("ber_ties", 1000);
 }
